@@ -34,6 +34,16 @@ THEOREMS = {
     "C05_relabel_direct": "same, for the direct estimator",
     "C05_scorer_checked_ok": "the scorer with its checks and the unranking of one recorded draw per sub-group (what the wire entry point runs) = the pure scorer of C05_alone on well-formed input",
     "C05_checked_ok": "on well-formed input (T>=3, non-empty plate list, square T x T matrix) no ValueError check fires and the heteroscedastic entry point returns the pure value on the unranked draw",
+    "C05_model_is_source_score": "the Gallina translation of the WHOLE method GaussianDBALScorer.score regenerated from /repo's current scoring/gaussian_dbal.py on this run (Generated/SrcDbal.v: the empty-dict return, n_subs = np.ceil(len(plates) / self.max_chunk), np.array_split over list(plates.keys()), the loop over the sub-groups with the dict lookups plates[k], the mask loop, the two predict comprehensions, the shape-check loop and its raise, the two padding calls, the kernel call consuming one recorded rng.choice answer, result.update(dict(zip(plate_subgroup, vals))), the final length check and its raise) equals, for EVERY integer max_chunk, every plates dict with distinct keys whose selection vectors have one common length, every matrix and every list of at least ceil(n/max_chunk) recorded answers, the model scorer_checked on the plates' (means, variances) - preceded by ZeroDivisionError for max_chunk = 0 and np.array_split's ValueError for max_chunk < 0 (scorer_py)",
+    "C05_model_is_source_score_positive_chunk": "instance: for max_chunk >= 1 the translated score is exactly scorer_checked (the function C05_scorer_checked_ok and C05_alone are about)",
+    "C05_model_is_source_pad_ragged_arrays_to_dense_array": "the translation of the whole function pad_ragged_arrays_to_dense_array (np.max of the shapes, pad_value * np.ones, the enumerate loop of block assignments) equals for ALL inputs and any element type / pad value: ValueError on no arrays, else the model pad_ragged",
+    "C05_model_is_source_pad_means": "the primitive the translated scorer / wrappers use for pad_ragged_arrays_to_dense_array(x, pad_value=0.0) is the translated pad function at pad value 0",
+    "C05_model_is_source_pad_vars": "likewise for pad_value=np.nan: the translated pad function at pad value NaN (None) on the variance arrays (every real cell Some)",
+    "C05_model_is_source_heteroscedastic": "the translation of the whole function dbal_fast_gaussian_scoring_heteroscedastic (zip loop of shape checks, raise, two padding calls, kernel call with the wrapper's own arguments) equals on the means/variances of ANY plate list the model hetero_checked (ValueError from np.max for the empty list)",
+    "C05_model_is_source_homoscedastic": "the translation of the whole function dbal_fast_gaussian_scoring_homoscedastic (n_plates check, n_thetas loop, padding, the enumerate loop building variances[idx][:, None] * np.ones((n_thetas, n_experiments)), padding, kernel call) equals for ALL inputs the model homo_checked (for no predictions: ValueError 25 or np.max's)",
+    "C05_model_is_source_kernel_checks": "the translation of the run of the three shape checks that opens dbal_fast_gauss_scoring_vectorized equals the three checks of the model kernel_checked (tags 20, 21, 22), all inputs",
+    "C05_model_is_source_kernel_triples": "the translation of the run `n_plates, n_thetas, _ = predictions.shape` .. `idx3 = np.array(idx3)` of dbal_fast_gauss_scoring_vectorized (comb(n_thetas, 3, exact=True), `if not n: raise`, min(n, max_combos), rng.choice(n, size=n_combos, replace=False), get_combination_at_sorted_index(ind, n_thetas, 3) per index, zip(*...) into three arrays): for max_combos >= 1 and a recorded answer obeying numpy's contract for exactly that rng.choice call, ValueError 23 below 3 samples, else the Unrank model applied index by index and split into the three columns",
+    "C05_model_is_source_kernel": "the model's kernel_checked = translated shape checks; translated index-to-triple run on the recorded answer; then the (untranslated) tensor expressions `kernel` on the triples that run delivers",
 }
 ASSUMPTIONS = [
     "ln / exp are oracles (libm on the nearest double) in the model; log1p(s) is rendered ln(1+s); + - * / are exact in the model, float64 in the code (tolerance 1e-9 * max(1,|score|))",
@@ -45,8 +55,56 @@ ASSUMPTIONS = [
 EXPLANATION = ("Model: Model/Dbal.v (+ Model/Unrank.v for the ranks -> triples step).  Modelled, not verified: numpy broadcasting/"
                "fancy indexing (rendered pointwise), scipy logsumexp, np.array_split, tqdm.  The equality theorems hold for every "
                "ln/exp because padding contributes exact zeros (mask 0 times ln(1/3); exp_factor times 0 mean difference) and every "
-               "oracle argument on real cells is the identical rational on both sides.")
+               "oracle argument on real cells is the identical rational on both sides.  "
+               "Source-translation links (C05_model_is_source_*): GaussianDBALScorer.score, dbal_fast_gaussian_scoring_heteroscedastic, "
+               "dbal_fast_gaussian_scoring_homoscedastic and pad_ragged_arrays_to_dense_array are re-translated as WHOLE functions, and the "
+               "two non-numeric runs of top-level statements of dbal_fast_gauss_scoring_vectorized (its three shape checks; "
+               "`n_plates, n_thetas, ... = predictions.shape` .. `idx3 = np.array(idx3)`) as body slices, from /repo's current "
+               "scoring/gaussian_dbal.py on every run (harness/py2gal.py, configurations C05_* at the end of harness/src_functions.py, output "
+               "Generated/SrcDbal.v; fail-closed: a construct outside the fragment, a changed parameter list or default, an undeclared "
+               "variable or a call matching no primitive stops the build), and the theorems prove the hand-written models equal to the "
+               "translations.  Everything structural comes from the translation: the early return, the loops (sub-groups, mask, shape "
+               "checks, enumerate), the comprehensions with the dict lookups plates[k], every raise, the None-initialised mask, the dict "
+               "result and its final length check, integer comparisons, the threading of the recorded rng answers.  NOT translated: the "
+               "tensor expressions of the kernel (mask, nan_to_num, alpha, exp_factor, log_norm_factor, d12/d13/d23, ll, logsumexp) - "
+               "they stay with the differential correspondence.  Trusted by the links: the translator (its rendering into Lib/PyRt.v, "
+               "extended here by the dict read d[k] = dict_get, KeyError, and the truth value of an int) and exactly these primitives, one "
+               "attribute / numpy / library call each, with the meaning written next to them at the end of Model/Dbal.v: "
+               "score: self.max_chunk = the integer parameter; np.ceil(a / b) = np_ceil_div (ZeroDivisionError for b = 0, else "
+               "-floor(-a/b); exact for ints below 2^53); list(d.keys()) = the keys in insertion order; np.array_split(l, n) = "
+               "np_array_split (ValueError unless n > 0, else the model's array_split); distance_matrix.to_dense() = the matrix D; "
+               "tqdm.tqdm(total=len(l), disable=not progress_bar) = an unread token, progress_bar.update(..) ignored; len; "
+               "p.selection_vector = first component of the plate object; a | b = np_or_vec (pointwise on equal lengths; broadcasting "
+               "not represented, excluded by the hypothesis); predict_mean_all(screen=p, thetas=samples) / predict_variance_all(..) = the "
+               "plate's means / variances arrays; zip(a, b) = combine; a.shape != b.shape = shape_ne (2-d); "
+               "pad_ragged_arrays_to_dense_array(x, pad_value=0.0 / np.nan) = pad_means_py / pad_vars_py (proved to BE the translated pad "
+               "function: C05_model_is_source_pad_means / _pad_vars); dbal_fast_gauss_scoring_vectorized(predictions=, variances=, "
+               "distance_matrix=, rng=rng, max_combos=self.max_triples) with exactly these keywords = kernel_call (kernel_checked on the "
+               "next recorded rng.choice answer, distance_factor 1; kernel_checked itself is tied to the source by "
+               "C05_model_is_source_kernel); dict(l) = dict_of_pairs; result.update(d) = dict_update.  "
+               "wrappers: zip, shape_ne, the two pad calls as above; the kernel call with exactly the wrapper's own arguments handed on = "
+               "kernel_checked on the recorded answer idxs; len; a.shape[0] / a.shape[1] = dim0 / dim1 (2-d), a.shape[0] = length (1-d); "
+               "variances[idx] = PyRt.list_get (IndexError); v[:, None] * np.ones((n, e)) = np_col_times_ones (rows x*1 repeated e times; "
+               "requires n = len(v), which the function guarantees).  "
+               "pad: np.array(a.shape) = shape2z; np.max(l, axis=0) = np_max_axis0 (ValueError on []); pad_value * np.ones((len(l), "
+               "*m), dtype=l[0].dtype) = np_full3 (the constant array); result[i, :a.shape[0], :a.shape[1]] = a = set_block.  "
+               "kernel runs: a.shape != b.shape = shape3_ne (3-d); shape[0] / shape[1] = dim0 / dim1 / dim3_1; predictions.shape = shape3z; "
+               "comb(n, 3, exact=True) = comb3 (0 below 3, else n(n-1)(n-2)/6); min = Z.min; rng.choice(n, size=k, replace=False) = "
+               "rng_choice (ValueError for k < 0 or k > n, else the next recorded answer, refused unless k distinct values of range(n)); "
+               "get_combination_at_sorted_index(i, n, 3) = unrank3 (Model/Unrank.v, itself tied to the source by property C15's kernel "
+               "translation); zip(*rows) into three names = unzip3 (ValueError on no rows); np.array(tuple of ints) = the same values.  "
+               "Hypotheses of the links and why every reachable input satisfies them: distinct dict keys (a dict); selection vectors of "
+               "one length (views of one screen - ScreenSubset.__init__ checks the length, C14); one recorded answer per kernel call, "
+               "obeying numpy's contract (the harness records and checks it on every call: _contract); max_combos >= 1 for the index run "
+               "(with max_combos = 0 the code raises on unpacking an empty zip while the model would return -inf scores: the model is not "
+               "claimed for that value).  Arrays are rectangular lists of lists (a 0-row array has no width), as everywhere in Model/Dbal.v.")
 
+TRUSTED = [
+    "source-translation links C05_model_is_source_*: the translator harness/py2gal.py (rendering into Lib/PyRt.v) and the primitives of the "
+    "configurations C05_SCORE, C05_PAD, C05_HETERO, C05_HOMO, C05_KERNEL_CHECKS, C05_KERNEL_TRIPLES in harness/src_functions.py (listed "
+    "one by one in the explanation; their meanings are the definitions at the end of Model/Dbal.v); the kernel's tensor expressions are "
+    "not translated",
+]
 TOL = 1e-9
 NEG_INF = float("-inf")
 
